@@ -42,6 +42,9 @@ Bool	libRepDebug	= false;
 #define libError(lib,tag)		\
 	comsgError(NULL, tag, libToStringStatic(lib))
 
+#define libFatal(lib,tag)		\
+	comsgFatal(NULL, tag, libToStringStatic(lib))
+
 #define LIB_SEEK(lib,pos)		\
 	fseek((lib)->file, (lib)->offset + (pos), SEEK_SET)
 
@@ -671,7 +674,7 @@ libChkHeader(Lib lib)
 
 	/* Check magic number. */
 	if( lib->hdr.magic != libHdrMagic ) {
-		libError(lib, ALDOR_E_LibBadMagic);
+		libFatal(lib, ALDOR_E_LibBadMagic);
 		return false;
 	}
 
@@ -686,7 +689,7 @@ libChkHeader(Lib lib)
 
 	/* Check the number of sections. */
 	if( !(lib->hdr.numSect <= LIB_INDEX_LIMIT) ) {
-		libError(lib, ALDOR_E_LibBadNumSect);
+		libFatal(lib, ALDOR_E_LibBadNumSect);
 		return false;
 	}
 
@@ -695,11 +698,13 @@ libChkHeader(Lib lib)
 		LibSectName n = libIndexName(lib, i);
 
 		if( n >= LIB_NAME_LIMIT ) {
-			libError(lib, ALDOR_E_LibBadSectName);
+			libFatal(lib, ALDOR_E_LibBadSectName);
 			return false;
 		}
-		if( libNameIndex(lib, n) != i )
-			bug( "Index[Name[i]] != i" );
+		if( libNameIndex(lib, n) != i ) {
+			libFatal(lib, ALDOR_E_LibSectDup);
+			return false;
+		}
 	}
 
 #if 0
@@ -717,7 +722,7 @@ libChkHeader(Lib lib)
 #endif
 	/* Check initial section header. */
 	if( libIndexSect(lib, LIB_INDEX_START).offset != libHdrSize ) {
-		libError(lib, ALDOR_E_LibBadSectHdr);
+		libFatal(lib, ALDOR_E_LibBadSectHdr);
 		return false;
 	}
 
@@ -726,9 +731,22 @@ libChkHeader(Lib lib)
 		if( libIndexSect(lib, i).offset !=
 		    libIndexSect(lib, i-1).offset +
 		    libIndexSect(lib, i-1).length ) {
-			libError(lib, ALDOR_E_LibBadSectHdr);
+			libFatal(lib, ALDOR_E_LibBadSectHdr);
 			return false;
 		}
+
+	/* Check that the file is as long as the section table says. */
+	if( lib->hdr.numSect > LIB_INDEX_START ) {
+		struct libSect last = libIndexSect(lib, lib->hdr.numSect - 1);
+
+		if( last.offset + last.length > 0 ) {
+			LIB_SEEK(lib, last.offset + last.length - 1);
+			if( getc(lib->file) == EOF ) {
+				libFatal(lib, ALDOR_E_LibBadSectHdr);
+				return false;
+			}
+		}
+	}
 
 	return true;
 }
@@ -771,7 +789,8 @@ libGetHeader(Lib lib)
 	LIB_SEEK(lib, long0);
 	cc = libHdrSize;
 	s = strAlloc(cc);
-	FILE_GET_CHARS(lib->file, s, cc);
+	if (fread(s, BYTE_BYTES, cc, lib->file) != cc)
+		libFatal(lib, ALDOR_E_LibBadSectHdr);
 	buf = bufCapture(s, cc);
 
 	lib->hdr.magic = bufGetHInt(buf);
